@@ -21,8 +21,9 @@ import Grass.Proto
   away from bucket boundaries by more than that noise, except for the deliberately chosen
   boundary witnesses, whose distance from the boundary is ≥ 1e-13 relative).
   `π` is the double `std::f64::consts::PI`.
-  Complex units (`px*px`, `px/s`), calculations and function references are not modelled; the
-  driver answers `unsupported` for them.
+  `Value`/`veq` leave out complex units (`px*px`, `px/s`), calculations and function references;
+  the extended universe `XV`/`xeq` further down (round 3) has them (a new type, so that the files
+  of other properties that match on `Value` are untouched).
 -/
 namespace Grass.Value
 
@@ -754,6 +755,485 @@ def parseOps (fuel : Nat) (ts : List String) : Option (List MapOp) :=
       | none => none
     | _ => none
 
+
+/-! ## extended universe (round 3): compound units, calculations, function references -/
+
+/-- `Unit` with `Complex` (unit/mod.rs:9, :107 `ComplexUnit { numer, denom }`; the derived
+    `PartialEq` compares the two vectors in order: `px*em` and `em*px` are different units). -/
+inductive XU where
+  | simple (u : U)
+  | complex (numer denom : List U)
+  deriving DecidableEq, Repr, Inhabited
+
+/-- `Unit::kind` (unit/mod.rs:190): `Complex` is `Other`. -/
+def XU.kind : XU → Kind
+  | .simple u => u.kind
+  | .complex _ _ => .other
+
+/-- `Unit::comparable` (unit/mod.rs:165) with `Complex` units. -/
+def xcomparable (u1 u2 : XU) : Bool :=
+  if u2 = .simple .none then true else
+  match u1.kind with
+  | .fontRel | .viewRel | .other => decide (u1 = u2)
+  | .none => true
+  | k => decide (u2.kind = k)
+
+/-- `impl PartialEq for SassNumber` (sass_number.rs:245) with `Complex` units.  With a `Complex`
+    unit on either side `canonical()` is `None` (kind `Other`), so the arm taken is
+    `self.num == other.num.convert(&other.unit, &self.unit)`; it is reached only with
+    `self.unit == other.unit` (`comparable` of kind `Other` is `==`; `None` against a unit is
+    refused by the second test), where `convert` returns its argument (number.rs:159). -/
+def xnumEq (sw : Sw) (n1 : Num) (u1 : XU) (n2 : Num) (u2 : XU) : Bool :=
+  match u1, u2 with
+  | .simple a, .simple b => numEq sw n1 a n2 b
+  | _, _ =>
+    if !xcomparable u1 u2 then false
+    else if (u2 = .simple .none ∨ u1 = .simple .none) ∧ u1 ≠ u2 then false
+    else fuzzyN n1 n2
+
+/-- `CalculationName` (value/calculation.rs:41). -/
+inductive CName where
+  | calc | min | max | clamp
+  deriving DecidableEq, Repr, Inhabited
+
+/-- the `BinaryOp`s a `CalculationArg::Operation` carries -/
+inductive COp where
+  | plus | minus | times | div
+  deriving DecidableEq, Repr, Inhabited
+
+mutual
+  /-- `CalculationArg` (value/calculation.rs:15), derived `PartialEq`. -/
+  inductive CArg where
+    | number (n : Num) (u : XU)
+    | calc (name : CName) (args : CArgs)
+    | str (s : List Char)
+    | op (l : CArg) (o : COp) (r : CArg)
+    | interp (s : List Char)
+  inductive CArgs where
+    | nil
+    | cons (a : CArg) (t : CArgs)
+end
+
+instance : Inhabited CArg := ⟨.str []⟩
+instance : Inhabited CArgs := ⟨.nil⟩
+
+mutual
+  /-- derived `PartialEq for CalculationArg`; numbers by `SassNumber::eq`. -/
+  def cargEq (sw : Sw) : CArg → CArg → Bool
+    | .number n1 u1, .number n2 u2 => xnumEq sw n1 u1 n2 u2
+    | .calc a as, .calc b bs => decide (a = b) && cargsEq sw as bs
+    | .str s, .str t => decide (s = t)
+    | .op l1 o1 r1, .op l2 o2 r2 => cargEq sw l1 l2 && decide (o1 = o2) && cargEq sw r1 r2
+    | .interp s, .interp t => decide (s = t)
+    | _, _ => false
+  def cargsEq (sw : Sw) : CArgs → CArgs → Bool
+    | .nil, .nil => true
+    | .cons a t, .cons b u => cargEq sw a b && cargsEq sw t u
+    | _, _ => false
+end
+
+/-- `SassFunction` (value/sass_function.rs:10), derived `PartialEq`:
+    `Builtin(Builtin, Identifier)` — `Builtin::eq` compares the registration counter
+    (builtin/functions/mod.rs:75); `UserDefined` — `AstFunctionDecl::eq` compares the `Spanned` name of
+    the declaration, i.e. name and position (ast/stmt.rs:148), then the name; `Plain { name }`. -/
+inductive FnRef where
+  | builtin (id : Nat) (name : List Char)
+  | user (name : List Char) (declLo declHi : Nat)
+  | plain (name : List Char)
+  deriving DecidableEq, Repr, Inhabited
+
+mutual
+  /-- `Value` (value/mod.rs:32) in full: `Dimension` with any unit, `Calculation`, `FunctionRef`. -/
+  inductive XV where
+    | null
+    | bool (b : Bool)
+    | num (n : Num) (u : XU)
+    | str (s : List Char) (quoted : Bool)
+    | color (r g b a : Rat)
+    | calc (name : CName) (args : CArgs)
+    | fn (f : FnRef)
+    | list (es : XVList) (sep : Sep) (bracketed : Bool)
+    | map (ps : XVPairs)
+    | arglist (es : XVList) (kw : XVPairs) (sep : Sep)
+  inductive XVList where
+    | nil
+    | cons (v : XV) (t : XVList)
+  inductive XVPairs where
+    | nil
+    | cons (k v : XV) (t : XVPairs)
+end
+
+instance : Inhabited XV := ⟨.null⟩
+instance : Inhabited XVList := ⟨.nil⟩
+instance : Inhabited XVPairs := ⟨.nil⟩
+
+def XVList.toList : XVList → List XV
+  | .nil => []
+  | .cons v t => v :: t.toList
+
+def XVList.ofList : List XV → XVList
+  | [] => .nil
+  | v :: t => .cons v (XVList.ofList t)
+
+def XVPairs.toList : XVPairs → List (XV × XV)
+  | .nil => []
+  | .cons k v t => (k, v) :: t.toList
+
+def XVList.length : XVList → Nat
+  | .nil => 0
+  | .cons _ t => t.length + 1
+
+def XVPairs.length : XVPairs → Nat
+  | .nil => 0
+  | .cons _ _ t => t.length + 1
+
+def XVPairs.any (f : XV → XV → Bool) : XVPairs → Bool
+  | .nil => false
+  | .cons k v t => f k v || t.any f
+
+mutual
+  /-- `Value::eq` (value/mod.rs:48), every arm.  (`List == ArgList` evaluates `other == self`; see `veq`.) -/
+  def xeq (sw : Sw) : XV → XV → Bool
+    | .calc a as, .calc b bs => decide (a = b) && cargsEq sw as bs
+    | .str s1 _, .str s2 _ => decide (s1 = s2)
+    | .num n1 u1, .num n2 u2 => xnumEq sw n1 u1 n2 u2
+    | .list l1 s1 b1, .list l2 s2 b2 => decide (s1 = s2) && decide (b1 = b2) && xeqL sw l1 l2
+    | .list l1 s1 b1, .arglist l2 _ s2 =>
+      if sw.argAsList then decide (s1 = s2) && decide (b1 = false) && xeqL sw l1 l2
+      else sw.argSym && decide (s1 = .comma) && xeqL sw l1 l2
+    | .null, .null => true
+    | .bool a, .bool b => a == b
+    | .fn f, .fn g => decide (f = g)
+    | .map p1, .map p2 => decide (p1.length = p2.length) && xsubP sw p1 p2
+    | .color r1 g1 b1 a1, .color r2 g2 b2 a2 => colorEq r1 g1 b1 a1 r2 g2 b2 a2
+    | .arglist l1 k1 s1, .arglist l2 k2 s2 =>
+      if sw.argAsList then decide (s1 = s2) && xeqL sw l1 l2
+      else xeqL sw l1 l2 && xeqKw sw k1 k2 && decide (s1 = s2)
+    | .arglist l1 _ s1, .list l2 s2 b2 =>
+      if sw.argAsList then decide (s1 = s2) && decide (false = b2) && xeqL sw l1 l2
+      else decide (s2 = .comma) && xeqL sw l1 l2
+    | _, _ => false
+  def xeqL (sw : Sw) : XVList → XVList → Bool
+    | .nil, .nil => true
+    | .cons a t, .cons b u => xeq sw a b && xeqL sw t u
+    | _, _ => false
+  def xeqKw (sw : Sw) : XVPairs → XVPairs → Bool
+    | .nil, .nil => true
+    | .cons k1 v1 t, .cons k2 v2 u => xeq sw k1 k2 && xeq sw v1 v2 && xeqKw sw t u
+    | _, _ => false
+  /-- `SassMap::eq` loop (map.rs:18). -/
+  def xsubP (sw : Sw) : XVPairs → XVPairs → Bool
+    | .nil, _ => true
+    | .cons k v t, q => q.any (fun k2 v2 => xeq sw k k2 && xeq sw v v2) && xsubP sw t q
+end
+
+/-! `SassMap` and `index` on the extended universe (same code as above, value/map.rs) -/
+
+def xget (sw : Sw) : XVPairs → XV → Option XV
+  | .nil, _ => none
+  | .cons k v t, key => if xeq sw k key then some v else xget sw t key
+
+def xcontains (sw : Sw) (m : XVPairs) (key : XV) : Bool := m.any (fun k _ => xeq sw k key)
+
+def xinsert (sw : Sw) : XVPairs → XV → XV → XVPairs
+  | .nil, key, val => .cons key val .nil
+  | .cons k v t, key, val => if xeq sw k key then .cons k val t else .cons k v (xinsert sw t key val)
+
+def xmerge (sw : Sw) (a : XVPairs) : XVPairs → XVPairs
+  | .nil => a
+  | .cons k v t => xmerge sw (xinsert sw a k v) t
+
+/-- `SassMap::remove` (map.rs:62) as it stands: `retain(|k| k != key)`. -/
+def xremove (sw : Sw) : XVPairs → XV → XVPairs
+  | .nil, _ => .nil
+  | .cons k v t, key => if !(xeq sw k key) then .cons k v (xremove sw t key) else xremove sw t key
+
+def xliteralFrom (sw : Sw) (acc : XVPairs) : List (XV × XV) → Option XVPairs
+  | [] => some acc
+  | (k, v) :: rest =>
+    match xget sw acc k with
+    | some _ => none
+    | none => xliteralFrom sw (xinsert sw acc k v) rest
+
+def xliteral (sw : Sw) (es : List (XV × XV)) : Option XVPairs := xliteralFrom sw .nil es
+
+def xindexOf (sw : Sw) : XVList → XV → Option Nat
+  | .nil, _ => none
+  | .cons e t, v => if xeq sw e v then some 0 else (xindexOf sw t v).map (· + 1)
+
+def xnumV (n : Nat) : XV := .num (.fin (n : Rat)) (.simple .none)
+
+/-- the model's observation for an ordered pair of the extended universe (see `pairObs`) -/
+def xpairObs (sw : Sw) (a b : XV) : PairObs :=
+  let m := XVPairs.cons a (xnumV 1) .nil
+  { eq := xeq sw a b, ne := !(xeq sw a b), getFound := (xget sw m b).isSome, hasKey := xcontains sw m b,
+    removed := (xremove sw m b).length == 0, mergeLen := (xmerge sw m (.cons b (xnumV 2) .nil)).length,
+    dupRejected := (xliteral sw [(a, xnumV 1), (b, xnumV 2)]).isNone, index := xindexOf sw (.cons a .nil) b }
+
+/-! guards on the extended universe -/
+
+mutual
+  def cargNoNaN : CArg → Bool
+    | .number n _ => !n.isNaN
+    | .calc _ as => cargsNoNaN as
+    | .op l _ r => cargNoNaN l && cargNoNaN r
+    | _ => true
+  def cargsNoNaN : CArgs → Bool
+    | .nil => true
+    | .cons a t => cargNoNaN a && cargsNoNaN t
+end
+
+mutual
+  def xnoNaN : XV → Bool
+    | .num n _ => !n.isNaN
+    | .calc _ as => cargsNoNaN as
+    | .list es _ _ => xnoNaNL es
+    | .map ps => xnoNaNP ps
+    | .arglist es kw _ => xnoNaNL es && xnoNaNP kw
+    | _ => true
+  def xnoNaNL : XVList → Bool
+    | .nil => true
+    | .cons v t => xnoNaN v && xnoNaNL t
+  def xnoNaNP : XVPairs → Bool
+    | .nil => true
+    | .cons k v t => xnoNaN k && xnoNaN v && xnoNaNP t
+end
+
+mutual
+  def xinRange : XV → Bool
+    | .color r g b a => decide (r ≤ 255) && decide (g ≤ 255) && decide (b ≤ 255) && decide (a ≤ 1)
+    | .list es _ _ => xinRangeL es
+    | .map ps => xinRangeP ps
+    | .arglist es kw _ => xinRangeL es && xinRangeP kw
+    | _ => true
+  def xinRangeL : XVList → Bool
+    | .nil => true
+    | .cons v t => xinRange v && xinRangeL t
+  def xinRangeP : XVPairs → Bool
+    | .nil => true
+    | .cons k v t => xinRange k && xinRange v && xinRangeP t
+end
+
+def xdistinctKeys (sw : Sw) : XVPairs → Bool
+  | .nil => true
+  | .cons k _ t => !(t.any (fun k2 _ => xeq sw k k2)) && xdistinctKeys sw t
+
+mutual
+  def xmapWf (sw : Sw) : XV → Bool
+    | .list es _ _ => xmapWfL sw es
+    | .map ps => xdistinctKeys sw ps && xmapWfP sw ps
+    | .arglist es kw _ => xmapWfL sw es && xmapWfP sw kw
+    | _ => true
+  def xmapWfL (sw : Sw) : XVList → Bool
+    | .nil => true
+    | .cons v t => xmapWf sw v && xmapWfL sw t
+  def xmapWfP (sw : Sw) : XVPairs → Bool
+    | .nil => true
+    | .cons k v t => xmapWf sw k && xmapWf sw v && xmapWfP sw t
+end
+
+/-! ### map-key history (round 3): what a sequence of operations does to the key sequence alone -/
+
+/-- a key is appended unless some key already there is `==` to it -/
+def keyAdd (sw : Sw) (ks : List Value) (k : Value) : List Value :=
+  if ks.any (fun x => veq sw x k) then ks else ks ++ [k]
+
+/-- effect of one operation on the key sequence (values never matter) -/
+def keysStep (sw : Sw) (ks : List Value) : MapOp → List Value
+  | .set k _ => keyAdd sw ks k
+  | .merge o => (keys o).toList.foldl (keyAdd sw) ks
+  | .remove k => ks.filter (fun x => keeps sw x k)
+
+/-- the key sequence after a whole history of operations -/
+def keysHist (sw : Sw) (ks0 : List Value) (ops : List MapOp) : List Value := ops.foldl (keysStep sw) ks0
+
+/-! ### driver: extended value encoding
+  as above, and  unit = … | `X <k> u*k <j> u*j` (numerator, denominator)
+  `k <name> <k> carg*k` calculation;  carg = `Cn <rat> <unit>` | `Cc <name> <k> carg*k` | `Cs <hex>` | `Co <op> carg carg` | `Ci <hex>`
+  `fb <id> <hex name>` | `fu <hex name> <lo> <hi>` | `fp <hex name>` function references -/
+
+def parseUnits : Nat → List String → Option (List U × List String)
+  | 0, ts => some ([], ts)
+  | k + 1, u :: r =>
+    match parseUnit? u, parseUnits k r with
+    | some u, some (us, r) => some (u :: us, r)
+    | _, _ => none
+  | _ + 1, [] => none
+
+def parseXU (ts : List String) : Option (XU × List String) :=
+  match ts with
+  | "X" :: k :: r =>
+    match k.toNat? with
+    | some k =>
+      match parseUnits k r with
+      | some (nu, j :: r) =>
+        match j.toNat? with
+        | some j =>
+          match parseUnits j r with
+          | some (de, r) => some (.complex nu de, r)
+          | none => none
+        | none => none
+      | _ => none
+    | none => none
+  | u :: r => (parseUnit? u).map (fun u => (.simple u, r))
+  | [] => none
+
+def parseCName? (s : String) : Option CName :=
+  if s == "calc" then some .calc else if s == "min" then some .min
+  else if s == "max" then some .max else if s == "clamp" then some .clamp else none
+
+def parseCOp? (s : String) : Option COp :=
+  if s == "plus" then some .plus else if s == "minus" then some .minus
+  else if s == "times" then some .times else if s == "div" then some .div else none
+
+mutual
+  def parseC (fuel : Nat) (ts : List String) : Option (CArg × List String) :=
+    match fuel with
+    | 0 => none
+    | fuel + 1 =>
+      match ts with
+      | "Cn" :: x :: r =>
+        match parseNum? x, parseXU r with
+        | some x, some (u, r) => some (.number x u, r)
+        | _, _ => none
+      | "Cc" :: nm :: k :: r =>
+        match parseCName? nm, k.toNat? with
+        | some nm, some k =>
+          match parseCs fuel k r with
+          | some (as, r) => some (.calc nm as, r)
+          | none => none
+        | _, _ => none
+      | "Cs" :: h :: r => (hexDecode h).map (fun s => (.str s.toList, r))
+      | "Ci" :: h :: r => (hexDecode h).map (fun s => (.interp s.toList, r))
+      | "Co" :: o :: r =>
+        match parseCOp? o, parseC fuel r with
+        | some o, some (l, r) =>
+          match parseC fuel r with
+          | some (rr, r) => some (.op l o rr, r)
+          | none => none
+        | _, _ => none
+      | _ => none
+  def parseCs (fuel : Nat) (k : Nat) (ts : List String) : Option (CArgs × List String) :=
+    match fuel with
+    | 0 => none
+    | fuel + 1 =>
+      match k with
+      | 0 => some (.nil, ts)
+      | k + 1 =>
+        match parseC fuel ts with
+        | some (a, r) =>
+          match parseCs fuel k r with
+          | some (as, r) => some (.cons a as, r)
+          | none => none
+        | none => none
+end
+
+mutual
+  def parseX (fuel : Nat) (ts : List String) : Option (XV × List String) :=
+    match fuel with
+    | 0 => none
+    | fuel + 1 =>
+      match ts with
+      | "N" :: r => some (.null, r)
+      | "T" :: r => some (.bool true, r)
+      | "F" :: r => some (.bool false, r)
+      | "n" :: x :: r =>
+        match parseNum? x, parseXU r with
+        | some x, some (u, r) => some (.num x u, r)
+        | _, _ => none
+      | "s" :: q :: h :: r =>
+        match parseBool? q, hexDecode h with
+        | some q, some s => some (.str s.toList q, r)
+        | _, _ => none
+      | "c" :: a :: b :: c :: d :: r =>
+        match parseRat? a, parseRat? b, parseRat? c, parseRat? d with
+        | some a, some b, some c, some d => some (.color a b c d, r)
+        | _, _, _, _ => none
+      | "k" :: nm :: k :: r =>
+        match parseCName? nm, k.toNat? with
+        | some nm, some k =>
+          match parseCs (2 * r.length + k + 2) k r with
+          | some (as, r) => some (.calc nm as, r)
+          | none => none
+        | _, _ => none
+      | "fb" :: id :: h :: r =>
+        match id.toNat?, hexDecode h with
+        | some id, some s => some (.fn (.builtin id s.toList), r)
+        | _, _ => none
+      | "fu" :: h :: lo :: hi :: r =>
+        match hexDecode h, lo.toNat?, hi.toNat? with
+        | some s, some lo, some hi => some (.fn (.user s.toList lo hi), r)
+        | _, _, _ => none
+      | "fp" :: h :: r => (hexDecode h).map (fun s => (.fn (.plain s.toList), r))
+      | "l" :: sp :: br :: k :: r =>
+        match parseSep? sp, parseBool? br, k.toNat? with
+        | some sp, some br, some k =>
+          match parseXs fuel k r with
+          | some (es, r) => some (.list es sp br, r)
+          | none => none
+        | _, _, _ => none
+      | "m" :: k :: r =>
+        match k.toNat? with
+        | some k =>
+          match parseXPs fuel k r with
+          | some (ps, r) => some (.map ps, r)
+          | none => none
+        | none => none
+      | "a" :: sp :: k :: r =>
+        match parseSep? sp, k.toNat? with
+        | some sp, some k =>
+          match parseXs fuel k r with
+          | some (es, j :: r) =>
+            match j.toNat? with
+            | some j =>
+              match parseXPs fuel j r with
+              | some (kw, r) => some (.arglist es kw sp, r)
+              | none => none
+            | none => none
+          | _ => none
+        | _, _ => none
+      | _ => none
+  def parseXs (fuel : Nat) (k : Nat) (ts : List String) : Option (XVList × List String) :=
+    match fuel with
+    | 0 => none
+    | fuel + 1 =>
+      match k with
+      | 0 => some (.nil, ts)
+      | k + 1 =>
+        match parseX fuel ts with
+        | some (v, r) =>
+          match parseXs fuel k r with
+          | some (vs, r) => some (.cons v vs, r)
+          | none => none
+        | none => none
+  def parseXPs (fuel : Nat) (k : Nat) (ts : List String) : Option (XVPairs × List String) :=
+    match fuel with
+    | 0 => none
+    | fuel + 1 =>
+      match k with
+      | 0 => some (.nil, ts)
+      | k + 1 =>
+        match parseX fuel ts with
+        | some (key, r) =>
+          match parseX fuel r with
+          | some (v, r) =>
+            match parseXPs fuel k r with
+            | some (ps, r) => some (.cons key v ps, r)
+            | none => none
+          | none => none
+        | none => none
+end
+
+def parseXValues (k : Nat) (ts : List String) : Option (List XV) :=
+  match parseXs (2 * ts.length + k + 2) k ts with
+  | some (vs, []) => some vs.toList
+  | _ => none
+
+def xguardsStr (sw : Sw) (v : XV) : String :=
+  boolStr (xnoNaN v) ++ boolStr (xmapWf sw v) ++ boolStr (xinRange v)
+
+def encKeyList (ks : List Value) : String := encV (.list (VList.ofList ks) .comma false)
+
 def guardsStr (sw : Sw) (v : Value) : String :=
   boolStr (noNaN v) ++ boolStr (mapWf sw v) ++ boolStr (inRange v) ++ boolStr (inScope sw v)
 
@@ -843,6 +1323,30 @@ def handle : List String → String
     else "bad-op"
   -- first <bits> → ok <position of the first 1 | none>   (P̂ of `index`/`map-get` against a row of `==` answers)
   | ["first", bits] => "ok " ++ optNatStr (firstTrue (parseBits bits))
+  -- xpairobs <sw> A B (extended encoding) → ok <eq> <ne> <get> <has> <removed> <mergeLen> <dup> <index> <agrees:-|names> <guards A> <guards B>
+  | "xpairobs" :: sw :: r =>
+    match parseSw? sw, parseXValues 2 r with
+    | some sw, some [a, b] =>
+      let o := xpairObs sw a b
+      let bad := pairAgrees o
+      s!"ok {boolStr o.eq} {boolStr o.ne} {boolStr o.getFound} {boolStr o.hasKey} {boolStr o.removed} {o.mergeLen} {boolStr o.dupRejected} {optNatStr o.index} {if bad.isEmpty then "-" else ",".intercalate bad} {xguardsStr sw a} {xguardsStr sw b}"
+    | _, _ => "bad-op"
+  -- xindex <sw> <k> L1 … Lk V (extended encoding) → ok <0-based position | none>
+  | "xindex" :: sw :: k :: r =>
+    match parseSw? sw, k.toNat? with
+    | some sw, some k =>
+      match parseXValues (k + 1) r with
+      | some vs => "ok " ++ optNatStr (xindexOf sw (XVList.ofList (vs.take k)) (vs.getD k .null))
+      | none => "bad-op"
+    | _, _ => "bad-op"
+  -- keyshist <sw> M op…  → ok <comma list of the keys after the history, computed on the key sequence alone>
+  | "keyshist" :: sw :: r =>
+    match parseSw? sw, parseV (2 * r.length + 4) r with
+    | some sw, some (.map m, r) =>
+      match parseOps (r.length + 2) r with
+      | some ops => "ok " ++ encKeyList (keysHist sw (keys m).toList ops)
+      | none => "bad-op"
+    | _, _ => "bad-op"
   | _ => "bad-op"
 
 end Grass.Value
